@@ -7,7 +7,7 @@
    exception: IndexError, struct.error, AssertionError, ValueError, UnicodeError; exhausted
    fuel = non-termination); for parser computations Val | Exn (XLib e) | Exn (XInt e). *)
 From DV Require Import Base.Prelude Model.NameM Model.ParserM Model.UntrustedM.
-From DV Require Model.TokM Model.SchemaM Proofs.UntrustedSchema Model.ZoneTextM Proofs.UntrustedZone.
+From DV Require Model.TokM Model.SchemaM Model.SchemaHand Proofs.UntrustedSchema Proofs.UntrustedHand Model.ZoneTextM Proofs.UntrustedZone.
 From DV Require Import Proofs.NameValid Proofs.ParserSafe Proofs.ParserProg
                        Proofs.UntrustedSafe Proofs.UntrustedDec Proofs.UntrustedText.
 Open Scope Z_scope.
@@ -151,6 +151,26 @@ Theorem no_internal_rdata_wire_table : forall (tbl : list SchemaM.entry) (c t : 
   end.
 Proof. exact UntrustedSchema.table_from_wire_family. Qed.
 Print Assumptions no_internal_rdata_wire_table.
+
+(* ... and the eight irregular types that C02 models by hand (HIP, IPSECKEY, AMTRELAY, APL, SVCB,
+   HTTPS, LOC, OPT with every EDNS option class): the same statement, incl. termination of their
+   `while parser.remaining() > 0` loops *)
+Theorem no_internal_rdata_wire_hand : forall (h : SchemaHand.hid) (o : option name) (wire : list Z) (cur rdlen : nat),
+  bytes_ok wire ->
+  match SchemaHand.hand_decode_rdata h o wire cur rdlen with
+  | Ok vs => SchemaHand.hand_valid h vs = true /\ (cur + rdlen <= length wire)%nat
+  | Lib e => is_form e = true
+  | Internal _ => False
+  end.
+Proof. exact UntrustedHand.hand_from_wire_family. Qed.
+Print Assumptions no_internal_rdata_wire_hand.
+
+Theorem rdata_wire_hand_renders : forall (h : SchemaHand.hid) (wire : list Z) (cur rdlen : nat) vs,
+  bytes_ok wire ->
+  SchemaHand.hand_decode_rdata h None wire cur rdlen = Ok vs ->
+  exists w', SchemaHand.hand_encode_rdata h None vs = Ok w'.
+Proof. exact UntrustedHand.hand_from_wire_renders. Qed.
+Print Assumptions rdata_wire_hand_renders.
 
 (* ================= messages ================= *)
 
